@@ -49,6 +49,7 @@ type FuncContract struct {
 	Results  []Param
 	Props    []string
 	Requires []*Clause
+	Defines  []*Clause // definitional axioms of spec functions local to this contract (assumed at entry)
 	Ensures  []*Clause
 	Lets     []LetDef
 	Modifies []Expr
@@ -80,6 +81,7 @@ type BoundedDef struct {
 }
 
 type MacroDef struct {
+	Pkg    string // package whose scope resolves the names in the body
 	Name   string
 	Recv   string // receiver type name ("" for plain spec functions)
 	Params []Param
@@ -153,7 +155,18 @@ func (sp *Specs) finishAxioms() {
 }
 
 func NewSpecs() *Specs {
-	return &Specs{Funcs: map[string]*FuncContract{}, Macros: map[string]*MacroDef{}, Ghosts: map[string]*GhostField{}, SMTFuns: map[string]string{}}
+	sp := &Specs{Funcs: map[string]*FuncContract{}, Macros: map[string]*MacroDef{}, Ghosts: map[string]*GhostField{}, SMTFuns: map[string]string{}}
+	// constructors and selectors of the built-in datatypes (declared in specs/00_builtin.spec)
+	for _, c := range []string{"eNil", "eI", "eS", "eF", "eB", "eL", "eP", "eP1", "eP2", "llast"} {
+		sp.SMTFuns[c] = SElem
+	}
+	for _, c := range []string{"lnil", "lsnoc", "lrest"} {
+		sp.SMTFuns[c] = SLog
+	}
+	sp.SMTFuns["eBc"], sp.SMTFuns["eSv"] = SBytes, SBytes
+	sp.SMTFuns["eBa"], sp.SMTFuns["eIv"] = SInt, SInt
+	sp.SMTFuns["eFv"] = SF64
+	return sp
 }
 
 var contractLineRe = regexp.MustCompile(`^\s*// ?@ ?(.*)$`)
@@ -253,6 +266,9 @@ func (sp *Specs) LoadFile(path, pkgName string) error {
 			fc.Key = fc.PkgName + "." + fc.Name
 			if fc.Recv != "" {
 				fc.Key = fc.PkgName + "." + fc.Recv + "." + fc.Name
+				if fc.PkgName == "spec" {
+					fc.Key = fc.Recv + "." + fc.Name // predeclared types (error)
+				}
 			}
 			if _, dup := sp.Funcs[fc.Key]; dup {
 				return fail("duplicate contract for %s", fc.Key)
@@ -278,7 +294,7 @@ func (sp *Specs) LoadFile(path, pkgName string) error {
 			cur.Fresh = true
 		case "may_panic":
 			cur.MayPanic = true
-		case "requires", "ensures", "invariant", "assume":
+		case "requires", "ensures", "invariant", "assume", "define":
 			if cur == nil {
 				return fail("%s outside a function contract", word)
 			}
@@ -321,6 +337,8 @@ func (sp *Specs) LoadFile(path, pkgName string) error {
 				curLoop.Invs = append(curLoop.Invs, c)
 			case curBranch != "":
 				cur.Branches[curBranch] = append(cur.Branches[curBranch], c)
+			case word == "define":
+				cur.Defines = append(cur.Defines, c)
 			case word == "requires":
 				cur.Requires = append(cur.Requires, c)
 			default:
@@ -387,6 +405,7 @@ func (sp *Specs) LoadFile(path, pkgName string) error {
 				return fail("%v", err)
 			}
 			md.File = path
+			md.Pkg = pkgName
 			key := md.Name
 			if md.Recv != "" {
 				key = md.Recv + "." + md.Name
